@@ -167,6 +167,11 @@ def _e3_cfgs() -> list[tuple[tuple[Any, ...], ...]]:
     return [tuple(sorted(shape)) for shape in template_shapes("abc")]
 
 
+def _slice(counter: int) -> int:
+    """Scrambled 1/8 slice index, so that a slice is not aligned with the innermost enumeration loops."""
+    return ((counter * 0x9E3779B1) >> 13) & 7
+
+
 def enum_chain_cases(tier: str, seed: int) -> Iterator[dict[str, Any]]:
     quick = tier == "quick"
     pick = seed % 8
@@ -186,7 +191,7 @@ def enum_chain_cases(tier: str, seed: int) -> Iterator[dict[str, Any]]:
             slots = [(ti, di) for ti, defs in enumerate(base) for di in range(len(defs))]
             for slot in [None, *slots]:
                 counter += 1
-                if quick and depth == 4 and counter % 8 != pick:
+                if quick and depth == 4 and _slice(counter) != pick:
                     continue
                 chain = [[list(d) for d in defs] for defs in base]
                 if slot is not None:
@@ -201,7 +206,7 @@ def enum_chain_cases(tier: str, seed: int) -> Iterator[dict[str, Any]]:
         for ids in _canonical_chains(len(cfgs3), tables3, depth):
             for sup in (0, 1):
                 counter += 1
-                if quick and depth == 4 and counter % 8 != pick:
+                if quick and depth == 4 and _slice(counter) != pick:
                     continue
                 yield {"kind": "enum", "fam": "E3",
                        "chain": [[[n, p, sup, 0] for (n, p) in cfgs3[i]] for i in ids]}
